@@ -35,6 +35,9 @@ TRUSTED = [
     'summit signal-to-noise test and its box, `amp > 0` switch and the two pairs of amplitude bounds, island / maxxed / '
     'psf_vary flag rules, the polarity filter expression; it refuses any other statement in the summit loop and any '
     'dependence of the position / shape / angle parameters, vary switches and flags on pixel values',
+    'translator, curvature block of _fit_island: arrays handed to maximum_filter / minimum_filter (the image cut-out, '
+    'optionally np.where(np.isfinite(..), .., fill)), same array on both sides of the == that defines pmask / tmask, values '
+    'written into icurve and their order, filter size; any other statement in the block is refused',
     'hand-written skeleton Model/Polarity.v (summit segmentation = 4-neighbour classes in raster order, stable sort, first '
     'extreme pixel, component numbering; NaN peak = every comparison false) tied by exact correspondence on the real '
     'estimate_lmfit_parinfo and on the real filter loop',
@@ -52,10 +55,15 @@ ASSUMPTIONS = [
     'curvature of the negated island is the negated curvature (a pixel that is at the same time the 3x3 maximum and minimum, '
     'i.e. a flat 3x3 patch, gets +1 in both polarities in _fit_island; such plateaus are not generated)',
     'recorded finding excluded from the metamorphic oracle: islands containing pixels of both signs',
+    'finder comparison: rows, ids and flags are always compared strictly; a numeric difference above the tolerances is '
+    'accepted only when one-ulp relative perturbations of the SAME image move that field of that row by at least a tenth of '
+    'it (error columns: when they move the error estimate by more than 1e-3 of itself) - this happens for under-determined '
+    'fits (e.g. 13 pixels, 12 free parameters after a blank block clipped a blend) where the LM end point is not determined '
+    'to round-off; the number of rows accepted this way is reported in the evidence',
     'finder comparison tolerances: fluxes 1e-6 relative, positions 1e-6 pixel, shapes 1e-6 relative, errors 1e-5 relative, '
     'flags equal',
 ]
-IMPORTS = ("From Coq Require Import ZArith QArith List Bool.\nFrom Aegean Require Import Lib.QBase Gen.Polarity "
+IMPORTS = ("From Coq Require Import ZArith QArith List Bool.\nFrom Aegean Require Import Lib.QBase Lib.Ext Gen.Polarity "
            "Model.IslandModel Model.Polarity.\nImport ListNotations.\nOpen Scope Z_scope.\n")
 FINDING_TAG = 'mixed-sign island'
 
@@ -343,11 +351,15 @@ def gauss(shape, A, r, c, sx, sy, th):
     return A * np.exp(-0.5 * (u * u / (sx * sx) + w * w / (sy * sy)))
 
 
-def gen_image_spec(rng, mode=None, cells=(3, 4)):
+OFFS8 = [(-1, 0), (1, 0), (0, -1), (0, 1), (-1, -1), (-1, 1), (1, -1), (1, 1)]
+
+
+def gen_image_spec(rng, mode=None, cells=(3, 4), blanks=False):
     CELL = 24
     shape = (cells[0] * CELL, cells[1] * CELL)
     rms0 = rng.choice([0.01, 0.5, 2.0])
     srcs = []
+    blank = []        # blank (NaN) pixels: ['near', source index, dr, dc] | ['block', source index, side, gap] | ['border', w]
     for i in range(cells[0]):
         for j in range(cells[1]):
             what = rng.choice(['none', 'iso', 'iso', 'iso', 'blend', 'blend'])
@@ -356,6 +368,13 @@ def gen_image_spec(rng, mode=None, cells=(3, 4)):
             sg = rng.choice([1, -1])
             r0, c0 = i * CELL + CELL / 2 + rng.uniform(-3, 3), j * CELL + CELL / 2 + rng.uniform(-3, 3)
             n = 1 if what == 'iso' else rng.choice([2, 2, 3])
+            if blanks:
+                kind = rng.choice(['near', 'near', 'near', 'block', 'toedge', 'none'])
+                if kind == 'near':      # one blank pixel 4- or 8-adjacent to the extremum
+                    dr, dc = rng.choice(OFFS8)
+                    blank.append(['near', len(srcs), dr, dc])
+                elif kind in ('block', 'toedge'):   # a blank block (or everything up to the image edge) clipping the source
+                    blank.append([kind, len(srcs), rng.choice(['up', 'down', 'left', 'right']), rng.choice([1, 1, 2, 3])])
             for k in range(n):
                 ang = rng.uniform(0, 2 * math.pi)
                 d = 0 if k == 0 else rng.uniform(3.5, 5.0)
@@ -365,9 +384,44 @@ def gen_image_spec(rng, mode=None, cells=(3, 4)):
     if not srcs:
         srcs.append([20 * rms0, shape[0] / 2 + 0.3, shape[1] / 2 - 0.4, 1.6, 1.3, 30.0])
         srcs.append([-15 * rms0, CELL / 2, CELL / 2, 1.5, 1.3, -20.0])
+    if blanks and rng.random() < 0.5:
+        blank.append(['border', rng.choice([1, 2, 3])])
+    mode = mode or rng.choice(['forced', 'maps'])
     return {'shape': list(shape), 'rms0': rms0, 'sources': srcs, 'noise_seed': rng.randrange(2 ** 31),
-            'noise': 0.2, 'mode': mode or rng.choice(['forced', 'maps']),
-            'bkg0': rng.choice([0.0, 0.0, 3.0, -1.5]) * rms0, 'ic': 5, 'oc': 4}
+            'noise': 0.2, 'mode': mode,
+            'bkg0': rng.choice([0.0, 0.0, 3.0, -1.5]) * rms0, 'ic': 5, 'oc': 4, 'blank': blank,
+            'blank_in': 'bkg' if (blanks and mode == 'maps' and rng.random() < 0.3) else 'img'}
+
+
+def blank_mask(spec):
+    shape = tuple(spec['shape'])
+    m = np.zeros(shape, dtype=bool)
+    R, C = shape
+    for b in spec.get('blank', []):
+        if b[0] == 'border':
+            w = b[1]
+            m[:w, :] = True; m[-w:, :] = True; m[:, :w] = True; m[:, -w:] = True
+            continue
+        if b[1] >= len(spec['sources']):
+            continue
+        g = np.abs(gauss(shape, *spec['sources'][b[1]]))
+        pr, pc = np.unravel_index(np.argmax(g), shape)
+        if b[0] == 'near':
+            r, c = pr + b[2], pc + b[3]
+            if 0 <= r < R and 0 <= c < C:
+                m[r, c] = True
+        else:
+            side, gap = b[2], b[3]
+            far = max(R, C) if b[0] == 'toedge' else 6
+            if side == 'up':
+                m[max(pr - gap - far, 0):max(pr - gap + 1, 0), max(pc - 5, 0):pc + 6] = True
+            elif side == 'down':
+                m[pr + gap:pr + gap + far, max(pc - 5, 0):pc + 6] = True
+            elif side == 'left':
+                m[max(pr - 5, 0):pr + 6, max(pc - gap - far, 0):max(pc - gap + 1, 0)] = True
+            else:
+                m[max(pr - 5, 0):pr + 6, pc + gap:pc + gap + far] = True
+    return m
 
 
 def build_image(spec):
@@ -386,13 +440,21 @@ def build_image(spec):
     else:
         rms = np.full(shape, spec['rms0'])
         bkg = np.full(shape, spec['bkg0'])
-    return sky + bkg, bkg, rms
+    img = sky + bkg
+    if spec.get('blank'):
+        m = blank_mask(spec)
+        if spec.get('blank_in') == 'bkg' and spec['mode'] == 'maps':
+            bkg = bkg.copy()
+            bkg[m] = np.nan
+        else:
+            img[m] = np.nan
+    return img, bkg, rms
 
 
 def mixed_islands(img, bkg, rms, ic, oc):
     """number of seeded islands (8-connected, |snr| >= oc) that contain pixels of both signs"""
     from scipy.ndimage import label
-    d = img - bkg
+    d = np.nan_to_num(img - bkg)          # blank pixels belong to no island
     snr = np.abs(d) / rms
     lab, n = label(snr >= oc, structure=np.ones((3, 3)))
     bad = 0
@@ -403,10 +465,12 @@ def mixed_islands(img, bkg, rms, ic, oc):
     return bad
 
 
-def run_finder(ctx, spec, negate, nopos, noneg, tag='m'):
+def run_finder(ctx, spec, negate, nopos, noneg, tag='m', eps=0.0, record=None):
     from AegeanTools.source_finder import SourceFinder
     from fixtures import make_header, write_image
     img, bkg, rms = build_image(spec)
+    if eps:
+        img = img * (1.0 + eps)        # same image up to one-ulp-sized relative changes
     if negate:
         img, bkg = -img, -bkg
     h = make_header(img.shape)
@@ -419,7 +483,15 @@ def run_finder(ctx, spec, negate, nopos, noneg, tag='m'):
         kw.update(bkgin=base + '_bkg.fits', rmsin=base + '_rms.fits')
     else:
         kw.update(rms=float(spec['rms0']), bkg=float(-spec['bkg0'] if negate else spec['bkg0']))
-    found = SourceFinder().find_sources_in_image(base + '.fits', **kw)
+    finder = SourceFinder()
+    if record is not None:
+        class Rec(SourceFinder):
+            def estimate_lmfit_parinfo(self, data, rmsimg, curve, *a, **k):
+                off = k.get('offsets', (0, 0))
+                record.append(((int(off[0]), int(off[1])), np.array(curve, dtype=int)))
+                return SourceFinder.estimate_lmfit_parinfo(self, data, rmsimg, curve, *a, **k)
+        finder = Rec()
+    found = finder.find_sources_in_image(base + '.fits', **kw)
     rows = []
     for s in found:
         rows.append({n: (float(getattr(s, n)) if n not in ('island', 'source', 'flags') else int(getattr(s, n)))
@@ -435,8 +507,44 @@ def rel(a, b, tol):
     return abs(a - b) <= tol * max(abs(a), abs(b))
 
 
-def rows_mirrored(p, n):
-    """None or message: catalogue n (of -img) is catalogue p with fluxes negated"""
+def field_devs(a, b, negated):
+    """per field: (|difference| between row a and row b (b read as the row of the negated image when `negated`),
+    strict tolerance for that field)"""
+    out = {}
+    pk = abs(a['peak_flux'])
+
+    def diff(x, y):
+        if x == y or (x != x and y != y):
+            return 0.0
+        if not (math.isfinite(x) and math.isfinite(y)):
+            return float('inf')
+        return abs(x - y)
+    for f in FIELDS_NEG:
+        y = -b[f] if negated else b[f]
+        tol = 1e-6 * max(abs(a[f]), abs(y))
+        if f in ('background', 'residual_mean'):
+            tol = max(tol, 1e-6 * pk)
+        out[f] = (diff(a[f], y), max(tol, 1e-12 * pk))
+    dx = (a['ra'] - b['ra']) * math.cos(math.radians(a['dec'])) / CDELT
+    dy = (a['dec'] - b['dec']) / CDELT
+    out['position [pixel]'] = (math.hypot(dx, dy), 1e-6)
+    for f in FIELDS_SAME:
+        tol = 1e-6 * max(abs(a[f]), abs(b[f]))
+        if f == 'residual_std':
+            tol = max(tol, 1e-9 * pk)       # noise-free fit: the residual is round-off only
+        out[f] = (diff(a[f], b[f]), tol)
+    dpa = abs(a['pa'] - b['pa']) % 180.0
+    out['pa'] = (0.0 if rel(a['a'], a['b'], 1e-5) else min(dpa, 180.0 - dpa), 1e-6 * 180)
+    for f in FIELDS_ERR:
+        out[f] = (diff(a[f], b[f]), 1e-5 * max(abs(a[f]), abs(b[f])))
+    return out
+
+
+def rows_mirrored(p, n, sens=None):
+    """None or message: catalogue n (of -img) is catalogue p with fluxes negated.  sens: {(island, source): {field:
+    largest change of that field under one-ulp perturbations of the SAME image}} - a difference is then accepted when
+    it is below 10 x that measured round-off sensitivity of the fit (rows, ids and flags are always compared strictly);
+    the accepted rows are appended to sens['_used']"""
     if len(p) != len(n):
         return (f'{len(p)} rows for the image, {len(n)} for the negated image '
                 f'(islands {[r["island"] for r in p]} vs {[r["island"] for r in n]})')
@@ -446,26 +554,96 @@ def rows_mirrored(p, n):
             return f'{tag}: ids differ: {(b["island"], b["source"])}'
         if a['flags'] != b['flags']:
             return f'{tag}: flags {a["flags"]} vs {b["flags"]}'
-        for f in FIELDS_NEG:
-            if not rel(a[f], -b[f], 1e-6) and not (abs(a[f]) < 1e-12 * abs(a['peak_flux']) and abs(b[f]) < 1e-12 * abs(a['peak_flux'])):
-                if f in ('background', 'residual_mean') and abs(a[f] + b[f]) <= 1e-6 * abs(a['peak_flux']):
+        for f, (d, tol) in field_devs(a, b, True).items():
+            if d <= tol:
+                continue
+            s = (sens or {}).get((a['island'], a['source']), {}).get(f, 0.0)
+            unstable_err = f in FIELDS_ERR and s > 1e-3 * max(abs(a[f]), abs(b[f]))   # covariance is round-off noise:
+            if sens is not None and (d <= 10 * s or unstable_err):                   # value <-> -1 flips included
+                sens['_used'].add((a['island'], a['source']))
+                continue
+            extra = f'; one-ulp perturbations of the image change it by {s:.3g}' if sens is not None else ''
+            return (f'{tag}: {f} differs by {d:.3g} (tolerance {tol:.3g}): {a.get(f)!r} vs {b.get(f)!r} for the negated '
+                    f'image{extra}')
+    return None
+
+
+def roundoff_sensitivity(ctx, spec, base, tag):
+    """how much every field of every row moves when the SAME image is perturbed by one / four ulp (relative)"""
+    sens = {'_used': set()}
+    for eps in (2.0 ** -52, -2.0 ** -52, 2.0 ** -50):
+        q = {(r['island'], r['source']): r for r in run_finder(ctx, spec, False, False, False, tag, eps=eps)}
+        for r in base:
+            key = (r['island'], r['source'])
+            if key in q:
+                for f, (d, _) in field_devs(r, q[key], False).items():
+                    sens.setdefault(key, {})
+                    sens[key][f] = max(sens[key].get(f, 0.0), d)
+    return sens
+
+
+LAST_CURVES = [[]]
+
+
+def curves_mirrored(spec, cp, cn):
+    """the curvature maps that _fit_island hands to estimate_lmfit_parinfo for img and -img: same islands, opposite
+    sign at every pixel that is not a plateau (3x3 window constant)"""
+    if [(o, c.shape) for o, c in cp] != [(o, c.shape) for o, c in cn]:
+        return (f'_fit_island estimates {len(cp)} islands for the image and {len(cn)} for the negated image (or their boxes '
+                f'differ): {[o for o, _ in cp][:12]} vs {[o for o, _ in cn][:12]}')
+    img, bkg, _ = build_image(spec)
+    d = img - bkg
+    for (o, a), (_, b) in zip(cp, cn):
+        bad = np.argwhere(b != -a)
+        for r, c in bad:
+            R, C = o[0] + r, o[1] + c
+            w = d[max(R - 1, 0):R + 2, max(C - 1, 0):C + 2]
+            w = w[np.isfinite(w)]
+            if a[r, c] == b[r, c] and w.size and np.all(w == w[0]):
+                continue       # plateau: both polarities get the value written last
+            return (f'curvature of the island at {o}: pixel ({int(R)}, {int(C)}) has curvature {int(a[r, c])} in the image and '
+                    f'{int(b[r, c])} in the negated image (expected {-int(a[r, c])})')
+    return None
+
+
+def curvature_windows(spec, curves, limit):
+    """(window as ranks, centre rank, real curvature) for island pixels whose 3x3 window is inside the image, NaN-free,
+    and whose island box does not touch the image border"""
+    img, bkg, _ = build_image(spec)
+    d = img - bkg
+    out = []
+    for (o, cu) in curves:
+        r0, c0 = o
+        r1, c1 = r0 + cu.shape[0], c0 + cu.shape[1]
+        if r0 < 1 or c0 < 1 or r1 > d.shape[0] - 1 or c1 > d.shape[1] - 1:
+            continue
+        for r in range(cu.shape[0]):
+            for c in range(cu.shape[1]):
+                w = d[r0 + r - 1:r0 + r + 2, c0 + c - 1:c0 + c + 2].ravel()
+                if not np.all(np.isfinite(w)):
                     continue
-                return f'{tag}: {f} {a[f]!r} vs {b[f]!r} (expected the negative)'
-        dx = (a['ra'] - b['ra']) * math.cos(math.radians(a['dec'])) / CDELT
-        dy = (a['dec'] - b['dec']) / CDELT
-        if not (math.hypot(dx, dy) <= 1e-6):
-            return f'{tag}: position differs by {math.hypot(dx, dy):.3g} pixel'
-        for f in FIELDS_SAME:
-            if not rel(a[f], b[f], 1e-6):
-                if f == 'residual_std' and abs(a[f] - b[f]) <= 1e-9 * abs(a['peak_flux']):
-                    continue        # noise-free fit: the residual is round-off only
-                return f'{tag}: {f} {a[f]!r} vs {b[f]!r}'
-        dpa = abs(a['pa'] - b['pa']) % 180.0
-        if min(dpa, 180.0 - dpa) > 1e-6 * 180 and not rel(a['a'], a['b'], 1e-5):
-            return f'{tag}: pa {a["pa"]!r} vs {b["pa"]!r}'
-        for f in FIELDS_ERR:
-            if not rel(a[f], b[f], 1e-5):
-                return f'{tag}: {f} {a[f]!r} vs {b[f]!r}'
+                ranks = {v: k for k, v in enumerate(sorted(set(w.tolist())))}
+                out.append(([ranks[v] for v in w.tolist()], ranks[w[4]], int(cu[r, c])))
+                if len(out) >= limit:
+                    return out
+    return out
+
+
+def filters_exchange_problem(rng, n):
+    """library hypothesis of C13_curvature_mirrored on the real scipy filters (NaN and +-inf included)"""
+    from scipy.ndimage import maximum_filter, minimum_filter
+    rs = np.random.RandomState(rng.randrange(2 ** 31))
+    for _ in range(n):
+        a = rs.randint(-4, 5, size=(rs.randint(1, 8), rs.randint(1, 8))).astype(float)
+        m = rs.rand(*a.shape)
+        a[m < 0.15] = np.nan
+        a[(m > 0.15) & (m < 0.2)] = np.inf
+        a[(m > 0.2) & (m < 0.25)] = -np.inf
+        for size in (3,):
+            x, y = minimum_filter(-a, size=size), -maximum_filter(a, size=size)
+            u, v = maximum_filter(-a, size=size), -minimum_filter(a, size=size)
+            if not (np.array_equal(x, y, equal_nan=True) and np.array_equal(u, v, equal_nan=True)):
+                return f'minimum_filter(-a) != -maximum_filter(a) for a = {a.tolist()}'
     return None
 
 
@@ -476,10 +654,16 @@ def ident(r):
 def image_problem(ctx, spec, tag='m'):
     """the whole C13 oracle on the real finder for one image.  returns (message or None, stats)"""
     cats = {}
+    curves = {False: [], True: []}
     for negate in (False, True):
         for nopos in (False, True):
             for noneg in (False, True):
-                cats[(negate, nopos, noneg)] = run_finder(ctx, spec, negate, nopos, noneg, tag)
+                cats[(negate, nopos, noneg)] = run_finder(ctx, spec, negate, nopos, noneg, tag,
+                                                          record=curves[negate] if not (nopos or noneg) else None)
+    LAST_CURVES[:] = [curves[False]]
+    msg = curves_mirrored(spec, curves[False], curves[True])
+    if msg:
+        return msg, {'rows': len(cats[(False, False, False)]), 'neg_rows': 0, 'blend_rows': 0}
     stats = {'rows': len(cats[(False, False, False)]),
              'neg_rows': sum(1 for r in cats[(False, False, False)] if r['peak_flux'] < 0),
              'blend_rows': sum(1 for r in cats[(False, False, False)] if r['source'] > 0)}
@@ -498,12 +682,18 @@ def image_problem(ctx, spec, tag='m'):
             return f'{who}: nopositive=True, nonegative=True leaves {len(none)} rows', stats
         if set(map(ident, pos)) & set(map(ident, neg)):
             return f'{who}: positive-only and negative-only catalogues share a row', stats
+    sens = None
     for (np_, nn_) in [(False, False), (False, True), (True, False)]:
         # positive-only of img corresponds to negative-only of -img
-        msg = rows_mirrored(cats[(False, np_, nn_)], cats[(True, nn_, np_)])
+        msg = rows_mirrored(cats[(False, np_, nn_)], cats[(True, nn_, np_)], sens)
+        if msg and sens is None and 'rows for the image' not in msg and 'ids differ' not in msg and ': flags ' not in msg:
+            # a numeric difference above round-off: is the fit itself that sensitive to round-off?
+            sens = roundoff_sensitivity(ctx, spec, cats[(False, False, False)], tag)
+            msg = rows_mirrored(cats[(False, np_, nn_)], cats[(True, nn_, np_)], sens)
         if msg:
             return (f'catalogue(img, nopositive={np_}, nonegative={nn_}) vs catalogue(-img, nopositive={nn_}, '
                     f'nonegative={np_}): {msg}'), stats
+    stats['roundoff_rows'] = len(sens['_used']) if sens else 0
     return None, stats
 
 
@@ -528,8 +718,11 @@ def run(ctx, model_ok=True):
                 'parameter compared with the Coq model and, for single-signed islands, with the run on the negated island. '
                 '(2) the filter loop of find_sources_in_image on fake fitted rows (+, -, 0.0, -0.0, NaN, denormal-small peaks) for '
                 'the four settings vs the Coq model. (3) the real finder on img and -img: 3x4 cells of isolated / blended '
-                'sources of either sign, S/N 8-150, noise 0.2 rms, forced rms/bkg or rms/bkg maps with gradients; 8 runs per '
-                'image. distinct = distinct inputs; non-trivial = at least one component / one row.')
+                'sources of either sign, S/N 8-150, noise 0.2 rms, forced rms/bkg or rms/bkg maps with gradients; half of the '
+                'images have blank (NaN) pixels in the image or in the background map: one blank pixel 4- or 8-adjacent to the '
+                'extremum of positive and negative sources, blank blocks clipping a source, blank to the image edge, blank '
+                'borders; 8 runs per image; catalogues and the curvature maps handed to estimate_lmfit_parinfo are compared. '
+                '(4) curvature of island pixels vs the Coq model; scipy rank filters under negation. distinct = distinct inputs; non-trivial = at least one component / one row.')
     # ---- (1) estimate
     t0 = time.time()
     cs = estimate_cases(ctx)
@@ -614,22 +807,26 @@ def run(ctx, model_ok=True):
     # ---- (3) the real finder on img / -img
     t1 = time.time()
     nimg = 12 if quick else 70
-    done = excluded = rows_total = negrows = blendrows = 0
+    done = excluded = rows_total = negrows = blendrows = roundoff = nblank = 0
+    cwin = []
     modes = ['forced', 'maps']
     budget = 100 if quick else 900
     for i in range(nimg):
         if time.time() - t1 > budget:
             ctx.notes.append(f'finder loop stopped after {i} images (time budget)')
             break
-        spec = gen_image_spec(rng, modes[i % 2])
+        spec = gen_image_spec(rng, modes[i % 2], blanks=(i % 4 >= 2))
         img, bkg, rms = build_image(spec)
         if mixed_islands(img, bkg, rms, spec['ic'], spec['oc']):
             excluded += 1
             continue
         msg, st = image_problem(ctx, spec)
+        if len(cwin) < 1500:
+            cwin += curvature_windows(spec, LAST_CURVES[0], 300)
         done += 1
         rows_total += st['rows']; negrows += st['neg_rows']; blendrows += st['blend_rows']
-        ctx.case(key=json.dumps(spec, sort_keys=True) if st['rows'] else None, bucket='finder:' + spec['mode'],
+        roundoff += st.get('roundoff_rows', 0); nblank += 1 if spec.get('blank') else 0
+        ctx.case(key=json.dumps(spec, sort_keys=True) if st['rows'] else None, bucket='finder:' + spec['mode'] + ('+blanks' if spec.get('blank') else ''),
                  sample={'mode': spec['mode'], 'sources': len(spec['sources']), 'rows': st['rows']} if i < 2 else None)
         if msg:
             small = shrink_image(ctx, spec)
@@ -637,10 +834,31 @@ def run(ctx, model_ok=True):
             ctx.mismatch('real finder: sign symmetry / filter partition', small, impl=m2 or msg,
                          is_violation={'kind': 'image', 'spec': small, 'what': m2 or msg})
     ctx.hyp['optimiser equivariance: catalogue(-img) = mirror of catalogue(img) to 1e-6 (8 finder runs per image)'] = done
+    nfe = 300 if quick else 3000
+    fe = filters_exchange_problem(rng, nfe)
+    ctx.hyp['scipy maximum_filter / minimum_filter are exchanged by negation (NaN, +-inf included)'] = nfe
+    ctx.oblige('library hypothesis: minimum_filter(-a) = -maximum_filter(a) and vice versa (hypothesis of C13_curvature_mirrored)',
+               fe is None, fe)
+    if model_ok and cwin:
+        cex = ['curve_gen max_ev min_ev [' + '; '.join(f'Fin {v}' for v in w) + f'] (Fin {c})' for w, c, _ in cwin]
+        cv, err = vlib.coq_eval(ctx, IMPORTS, cex, shard=400, workers=8)
+        if cv is None:
+            ctx.oblige('model evaluation (vm_compute) of Model.Polarity.curve_gen', False, err)
+        else:
+            cbad = [(w, c, real, m) for (w, c, real), m in zip(cwin, cv) if real != m]
+            for (w, c, real, m) in cbad[:3]:
+                ctx.mismatch('_fit_island curvature vs Model.Polarity.curve_gen', {'window_ranks': w, 'centre': c}, impl=real, model=m)
+            ctx.oblige(f'correspondence: curvature of {len(cwin)} island pixels (NaN-free 3x3 windows of the finder runs) equal to '
+                       f'the model', not cbad, f'{len(cbad)} pixels differ')
+            ctx.traces += len(cwin)
     ctx.hyp['finite non-zero peak flux of every catalogue row'] = rows_total * 2
     ctx.oblige(f'hypothesis validation: {done} images ({rows_total} rows, {negrows} negative, {blendrows} in blends) mirrored '
                f'row by row for all option pairs; filter partition exact', done > 0 and not any(
                    f.get('what', '').startswith('real finder') for f in ctx.failures), 'see mismatches')
+    ctx.notes.append(f'{nblank} of the images have blank pixels (beside extrema, clipping blocks, borders); {roundoff} rows were '
+                     f'accepted only because one-ulp perturbations of the same image move them more than the mirrored run '
+                     f'differs (under-determined fits)')
+    ctx.extra['rows_accepted_by_roundoff_sensitivity'] = roundoff
     ctx.notes.append(f'{done} images x 8 finder runs in {time.time() - t1:.1f}s; {excluded} generated images skipped because an '
                      f'island had both signs')
     # ---- recorded finding: islands with pixels of both signs
@@ -661,18 +879,39 @@ def run(ctx, model_ok=True):
         ctx.notes.append('the recorded mixed-sign-island finding no longer reproduces on the implementation')
 
 
+def drop_source(spec, k):
+    new = dict(spec)
+    new['sources'] = spec['sources'][:k] + spec['sources'][k + 1:]
+    bl = []
+    for b in spec.get('blank', []):
+        if b[0] == 'border':
+            bl.append(b)
+        elif b[1] != k:
+            bl.append([b[0], b[1] - (1 if b[1] > k else 0)] + list(b[2:]))
+    new['blank'] = bl
+    return new
+
+
 def shrink_image(ctx, spec):
-    """drop sources / noise while the oracle still fails"""
+    """drop sources / blank pixels / noise while the oracle still fails"""
     cur = dict(spec)
     changed = True
     t0 = time.time()
-    while changed and time.time() - t0 < 60:
+    while changed and time.time() - t0 < 90:
         changed = False
         for k in range(len(cur['sources'])):
+            if len(cur['sources']) == 1:
+                break
+            new = drop_source(cur, k)
+            if image_problem(ctx, new, 's')[0]:
+                cur = new
+                changed = True
+                break
+        if changed:
+            continue
+        for k in range(len(cur.get('blank', []))):
             new = dict(cur)
-            new['sources'] = cur['sources'][:k] + cur['sources'][k + 1:]
-            if not new['sources']:
-                continue
+            new['blank'] = cur['blank'][:k] + cur['blank'][k + 1:]
             if image_problem(ctx, new, 's')[0]:
                 cur = new
                 changed = True
@@ -727,7 +966,7 @@ def search(ctx):
             return {'kind': 'filter', 'rows': rows, 'nopositive': a, 'nonegative': b,
                     'what': f'filter kept rows {got}, expected {e}'}
     while time.time() - t0 < 150:
-        spec = gen_image_spec(rng, cells=(2, 3))
+        spec = gen_image_spec(rng, cells=(2, 3), blanks=rng.random() < 0.6)
         img, bkg, rms = build_image(spec)
         if mixed_islands(img, bkg, rms, spec['ic'], spec['oc']):
             continue
